@@ -223,6 +223,9 @@ func GenSpec(t *rapid.T) *Spec {
 			uint64(rapid.SampledFrom([]int{1, 7, 1000, 123456}).Draw(t, "ddAmount")),
 		})
 	}
+	for i := 0; i < s.NEntities; i++ {
+		s.EntityCommission = append(s.EntityCommission, uint64(rapid.SampledFrom([]int{0, 0, 20000, 60000, 100000}).Draw(t, "entityCommission")))
+	}
 	if ci := uint64(rapid.SampledFrom([]int{1, 1, 1, 2, 3, 0}).Draw(t, "commissionInterval")); ci != 1 {
 		s.CommissionInterval = &ci
 	}
